@@ -5,6 +5,7 @@
   job list and every schedule (see Props/C04.lean for `Reachable`, the lock invariant and `progress`).
 -/
 import Homonim.Props.C04
+import Homonim.Model.Cli
 
 namespace Homonim
 
@@ -75,5 +76,42 @@ def cliExit (raised : Bool) : Nat := if raised then 1 else 0
 
 theorem cli_exit_nonzero (raised : Bool) : cliExit raised = 0 ↔ raised = false := by
   cases raised <;> simp [cliExit]
+
+/-! ### The commands' handlers (round 12) -/
+
+/-- **Fail loud at the command line, whatever the run's conditions**: with the handler the three commands have, an exception
+    gives exit status 1 under every assignment of the conditions (verbosity, …), and status 0 means nothing was raised -/
+theorem command_exit_zero_iff (env : String → Bool) (raised : Bool) :
+    commandExit cliHandler env raised = 0 ↔ raised = false := by
+  cases raised <;> simp [commandExit, cliHandler, HBody.exit]
+
+theorem command_exit_is_cliExit (env : String → Bool) (raised : Bool) : commandExit cliHandler env raised = cliExit raised := by
+  cases raised <;> simp [commandExit, cliHandler, HBody.exit, cliExit]
+
+/-- the pattern of seeded change C09-k: the abort sits in the branch for quiet runs only; a verbose run that fails exits 0 -/
+theorem conditional_abort_fails_silently :
+    let h : HBody := .ite "not verbose" (.log .abort) (.log .fallthrough)
+    commandExit h (fun _ => true) true = 1 ∧ commandExit h (fun _ => false) true = 0 := by
+  simp [commandExit, HBody.exit]
+
+/-- a handler aborts under every condition iff every path through it ends in `abort` -/
+def HBody.allAbort : HBody → Bool
+  | .abort => true
+  | .fallthrough => false
+  | .log n => n.allAbort
+  | .ite _ t e => t.allAbort && e.allAbort
+
+theorem allAbort_exit (h : HBody) (hh : h.allAbort = true) (env : String → Bool) : h.exit env = 1 := by
+  induction h with
+  | abort => rfl
+  | fallthrough => simp [HBody.allAbort] at hh
+  | log n ih => exact ih hh
+  | ite c t e iht ihe =>
+    simp only [HBody.allAbort, Bool.and_eq_true] at hh
+    simp only [HBody.exit]
+    split
+    · exact iht hh.1
+    · exact ihe hh.2
+
 
 end Homonim
